@@ -221,3 +221,21 @@ def sentExchangeIds : List Ev → List Nat
   | _ :: rest => sentExchangeIds rest
 
 end MqttVerif.Mon
+
+namespace MqttVerif.Mon
+
+/-! ## C01 — what two interoperating endpoints must show -/
+
+/-- how often an *accepted* message may be notified at the receiving application, once the
+    exchange is quiescent: QoS 2 exactly once, QoS 1 at least once (exactly once when no
+    transport was lost), QoS 0 at most once -/
+def deliveryOk (qos delivered : Nat) (noLoss : Bool) : Bool :=
+  match qos with
+  | 0 => decide (delivered ≤ 1)
+  | 1 => decide (delivered ≥ 1) && (!noLoss || decide (delivered = 1))
+  | _ => decide (delivered = 1)
+
+/-- a message the sender refused locally is never seen by the peer -/
+def refusedOk (delivered : Nat) : Bool := decide (delivered = 0)
+
+end MqttVerif.Mon
